@@ -4,6 +4,7 @@
 # against a scratch worktree carrying it (VERIF_REPO), leaving /repo untouched.
 set -u
 sd="$(cd "$1" && pwd)"; prop="$2"; tier="${3:-quick}"
+here="$(cd "$(dirname "$0")/.." && pwd)"
 wt="/var/tmp/seedrepo-$$"
 git -C /repo worktree add -q --detach "$wt" HEAD || exit 2
 trap 'git -C /repo worktree remove --force "$wt" >/dev/null 2>&1' EXIT
@@ -14,5 +15,5 @@ git -C "$wt" apply "$sd/patch.diff" || { echo "patch does not apply"; exit 2; }
 echo "== pinned test suite with the change"; (cd "$wt" && /venv/bin/python -m pytest -q -p no:cacheprovider --timeout=900 unittests/cargotests.py unittests/optiontests.py unittests/taptests.py unittests/versiontests.py 2>&1 | tail -1)
 echo "== demo on changed tree (expect non-zero)"; (cd /tmp && MESON_SRC="$wt" $runner "$demo" 2>&1 | tail -3; echo "exit=$?")
 echo "== ./check $prop --tier $tier against the changed tree"
-out="/var/tmp/seedout-$prop"; mkdir -p "$out"
-(cd /verif && VERIF_REPO="$wt" VERIF_OUT="$out" ./check "$prop" --tier "$tier" > "$out/log" 2>&1; echo "check-exit=$?"; tail -6 "$out/log")
+out="${SEEDOUT:-/var/tmp/seedout-$prop}"; rm -rf "$out"; mkdir -p "$out"
+(cd "$here" && VERIF_REPO="$wt" VERIF_OUT="$out" ./check "$prop" --tier "$tier" > "$out/log" 2>&1; echo "check-exit=$?"; tail -6 "$out/log")
